@@ -7,6 +7,8 @@ from ..lib import (construct, std_facts, def_of, facts_at, calls_of_node,
                    in_subtree, single_reaching_value, returns_of)
 
 from .c19 import import_aliases
+from .common import method_selector_rule
+from ..core import AnalysisError
 
 SAN = 'config._is_literally_representable'
 
@@ -120,26 +122,9 @@ def run(ctx):
                 ii.loc(lp), instance='import-order')
 
   # ---- C06.roundtrip-guard
-  fv = ctx.func('config._format_value')
-  g2, facts2 = std_facts(prog, fv)
-  rets2 = [n for n in g2.live_nodes() if n.kind == 'return']
-  ok = False
-  for n in rets2:
-    v = n.ast.value
-    if v is None or (isinstance(v, ast.Constant) and v.value is None):
-      continue
-    d = def_of(facts2[n.id], u(v)) if isinstance(v, ast.Name) else None
-    guard = any(fct[0] == 'c' and fct[2] is True and fct[1].replace(' ', '') in
-                ('parse_value(%s)==value' % u(v), 'value==parse_value(%s)' % u(v)) for fct in facts2[n.id])
-    ok = guard and d == 'repr(value)'
-    if not ok:
-      break
-  ctx.check(ok, 'C06.roundtrip-guard', construct(fv), 'text is returned only when it is repr(value) and parses back to an equal value',
-            '_format_value returns text that was not checked to parse back to an equal value', fv.loc(), instance='guard')
-  ir = ctx.func(SAN)
-  rv = [u(r.value).replace(' ', '') for r in returns_of(ir) if r.value is not None]
-  ctx.check(rv == ['_format_value(value)isnotNone'], 'C06.roundtrip-guard', construct(ir),
-            'representable == _format_value yields text', '_is_literally_representable is `%s`' % rv, ir.loc(), instance='predicate')
+  roundtrip_guard(ctx, 'C06.roundtrip-guard')
+  reference_repr(ctx, 'C06.reference-repr')
+  method_selector_rule(ctx, 'C06.selectors')
 
   # ---- C06.markdown
   md = ctx.func('config.markdown')
@@ -189,3 +174,66 @@ def run(ctx):
             'from-imports are split at the last dot when printed and joined with a dot when parsed',
             'the from-import split/join no longer mirror each other', fm.loc(), instance='from-split')
   import_aliases(ctx, 'C06.import-aliases')
+
+
+def roundtrip_guard(ctx, rule):
+  """_format_value returns text only if it is repr(value) and parses back to an equal value."""
+  prog = ctx.prog
+  fv = ctx.func('config._format_value')
+  g2, facts2 = std_facts(prog, fv)
+  rets2 = [n for n in g2.live_nodes() if n.kind == 'return']
+  ok = False
+  for n in rets2:
+    v = n.ast.value
+    if v is None or (isinstance(v, ast.Constant) and v.value is None):
+      continue
+    d = def_of(facts2[n.id], u(v)) if isinstance(v, ast.Name) else None
+    guard = any(fct[0] == 'c' and fct[2] is True and fct[1].replace(' ', '') in
+                ('parse_value(%s)==value' % u(v), 'value==parse_value(%s)' % u(v)) for fct in facts2[n.id])
+    ok = guard and d == 'repr(value)'
+    if not ok:
+      break
+  ctx.check(ok, rule, construct(fv), 'text is returned only when it is repr(value) and parses back to an equal value',
+            '_format_value returns text that was not checked to parse back to an equal value', fv.loc(), instance='guard')
+  ir = ctx.func(SAN)
+  rv = [u(r.value).replace(' ', '') for r in returns_of(ir) if r.value is not None]
+  ctx.check(rv == ['_format_value(value)isnotNone'], rule, construct(ir),
+            'representable == _format_value yields text', '_is_literally_representable is `%s`' % rv, ir.loc(), instance='predicate')
+
+
+
+def reference_repr(ctx, rule):
+  """The text of a reference keeps its scopes in every branch of __repr__."""
+  prog = ctx.prog
+  cr = ctx.cls('config.ConfigurableReference')
+  rp = cr.methods.get('__repr__')
+  if rp is None:
+    raise AnalysisError('ConfigurableReference.__repr__ vanished')
+  g, facts = std_facts(prog, rp)
+  rets = [n for n in g.live_nodes() if n.kind == 'return' and n.ast.value is not None]
+  ctx.expect_at_least('returns of ConfigurableReference.__repr__', len(rets), 2)
+  for n in rets:
+    v = n.ast.value
+    txt = u(v)
+    if txt.startswith("'%'"):
+      ok = 'self._scopes' in txt or 'self.scopes' in txt
+      ctx.check(ok, rule, construct(rp), 'a macro / constant reference prints as %<its scope>', 'the %-form no longer prints the scope (the macro name)', rp.loc(v), instance='percent')
+      continue
+    names = [x.id for x in ast.walk(v) if isinstance(x, ast.Name)]
+    ok = False
+    for nm in names:
+      for a in walk_local(rp.node):
+        if isinstance(a, ast.Assign) and u(a.targets[0]) == nm and ('self.scopes' in u(a.value) or 'self._scopes' in u(a.value)) and 'join' in u(a.value):
+          # every definition of that name must include the scopes
+          alld = [b for b in walk_local(rp.node) if isinstance(b, ast.Assign) and u(b.targets[0]) == nm]
+          ok = all(('self.scopes' in u(b.value) or 'self._scopes' in u(b.value) or 'self._scoped_selector' == u(b.value)) for b in alld)
+    # the selector part in dynamic mode must come from the import manager
+    dyn = [a for a in walk_local(rp.node) if isinstance(a, ast.Assign) and isinstance(a.value, ast.Call) and u(a.value.func).endswith('minimal_selector')]
+    for a in dyn:
+      tgt = u(a.targets[0])
+      joined = any(isinstance(b, ast.Assign) and 'join' in u(b.value) and tgt in [x.id for x in ast.walk(b.value) if isinstance(x, ast.Name)]
+                   and ('self.scopes' in u(b.value) or 'self._scopes' in u(b.value)) for b in walk_local(rp.node))
+      ok = ok and joined
+    ctx.check(ok, rule, construct(rp), 'the printed reference is <scopes>/<selector> in the static and in the dynamic-registration branch',
+              'a branch of __repr__ prints the selector without the reference\'s scopes: after a round trip through config_str the reference '
+              'runs under the ambient scope instead of its own', rp.loc(v), instance='scopes-kept')
